@@ -337,6 +337,48 @@ class Xform(Harness):
             raise Violation("expand-structure-differs", f"{got_core} vs {want}")
 
 
+class CutNames(Harness):
+    """Two different edges that a split cuts get different cut names (the sink and the source that stand in for a cut edge
+    are tied together by that name only), also when node, output and input names contain the characters the name is built with."""
+
+    name = "xform-cutnames"
+    engine = "E1-crosshair"
+    properties = ("C11",)
+    rule = "one path = a pair of cut edges (producer, output, consumer, input) with names from palettes of dotted look-alikes; non-trivial = the two edges differ"
+    assumptions = ["names come from small palettes chosen so that different (producer, output) / (consumer, input) pairs spell the same dotted string"]
+    outside = ["collisions of Python's hash() itself"]
+    SRC = [("ens", "mean.0"), ("ens.mean", "0"), ("ens", "0"), ("a->b", "c"), ("a", "b->c")]
+    DST = [("plot", "mean.in"), ("plot.mean", "in"), ("plot", "in"), ("x", "y"), ("x.y", "")]
+
+    def shards(self, tier):
+        return [{}]
+
+    def budget(self, tier):
+        return 60.0
+
+    def bounds(self, tier):
+        return {"producers": self.SRC, "consumers": self.DST}
+
+    def functions(self):
+        return [g_split.CutEdge]
+
+    def body(self, ch, params):
+        with ch.untraced():
+            e = []
+            for k in range(2):
+                sn, so = ch.choose(self.SRC, f"src{k}")
+                dn, di = ch.choose(self.DST, f"dst{k}")
+                e.append(g_split.CutEdge(0, sn, so, 1, dn, di))
+            ch.note("nontrivial", e[0] != e[1])
+            ch.note("edges", [repr(x) for x in e])
+            n0, n1 = guarded("cut-name", lambda: (e[0].name, e[1].name))
+            if e[0] != e[1] and n0 == n1:
+                raise Violation("distinct-cut-edges-share-a-name", f"{e[0]} and {e[1]} are both called {n0}: re-joining wires a consumer to the wrong producer")
+            if e[0] == e[1] and n0 != n1:
+                raise Violation("cut-name-not-a-function-of-the-edge", f"{e[0]}: {n0} vs {n1}")
+
+
+register(CutNames())
 register(Xform("xform-copy-rename", ["copy", "rename"]))
 register(Xform("xform-dedup-fuse", ["dedup", "fuse"]))
 register(Xform("xform-split-expand", ["split", "expand"]))
